@@ -792,6 +792,20 @@ func (env *specEnv) wf(v T) {
 }
 
 func (env *specEnv) wfFrom(v T, heap, idx string) {
+	if v.Go != nil && strings.Contains(v.S, "!q") && v.Sort == "Int" {
+		// a reference loaded from a field heap under a quantified base: every reference stored in the heap is
+		// allocated (the uniform version of the fact assumed for each concrete load)
+		switch v.Go.Underlying().(type) {
+		case *types.Pointer, *types.Map, *types.Chan:
+			e := env.f.e
+			if srt := e.heapSort[heap]; srt == "(Array Int Int)" {
+				h, w := e.H(env.cur, heap, srt), e.H(env.cur, "W", "Int")
+				e.declFun("owner", []string{"Int"}, "Int")
+				e.addDecl("heapwf@"+h+"@"+w, "(assert (forall ((wx Int)) (! (<= (owner (select "+h+" wx)) "+w+") :pattern ((select "+h+" wx)))))")
+			}
+		}
+		return
+	}
 	if env.nbound > 0 || v.Go == nil || strings.Contains(v.S, "!q") {
 		return
 	}
